@@ -565,3 +565,227 @@ def node_calls(node):
     if node.ast is None:
         return []
     return list(calls(node.ast))
+
+
+# --------------------------------------------------------------------------- small-step machine (E7)
+class _Break(Exception):
+    pass
+
+
+class _Return(Exception):
+    def __init__(self, v):
+        self.v = v
+
+
+class Machine(Evaluator):
+    """Concrete interpreter for small decision functions: locals, assignments, if / switch (with fall-through) /
+    return.  Calls are delegated to `call_hook(machine, call_ast)`; globals to `global_hook(name)`.
+    Values are Python ints / floats / strings (symbolic tokens).  Anything else raises Unsupported."""
+
+    def __init__(self, env=None, call_hook=None, global_hook=None, tables=None):
+        super().__init__(env or {}, tables)
+        self.call_hook = call_hook
+        self.global_hook = global_hook
+
+    def ev(self, e):
+        k = e['k']
+        if k == 'Float':
+            return e['v']
+        if k == 'Nullptr':
+            return 0
+        if k in ('Call', 'MCall', 'OpCall', 'Ctor'):
+            if k == 'OpCall' and e['op'] in ('==', '!=') and len(e['args']) == 2 and self.call_hook is None:
+                a, b = self.ev(e['args'][0]), self.ev(e['args'][1])
+                return int((a == b) == (e['op'] == '=='))
+            if self.call_hook is not None:
+                r = self.call_hook(self, e)
+                if r is not NotImplemented:
+                    return r
+            if k == 'OpCall' and e['op'] in ('==', '!=') and len(e['args']) == 2:
+                a, b = self.ev(e['args'][0]), self.ev(e['args'][1])
+                return int((a == b) == (e['op'] == '=='))
+            raise Unsupported('call ' + pp(e)[:80])
+        if k == 'Ref' and e.get('d') in ('global', 'staticlocal') and 'cv' not in e:
+            if self.global_hook is not None:
+                r = self.global_hook(e.get('q') or e['n'])
+                if r is not NotImplemented:
+                    return r
+            raise Unsupported('global ' + e['n'])
+        if k == 'Un' and e['op'] == '*':
+            return self.ev(e['e'])
+        if k == 'Un' and e['op'] in ('++', '--'):
+            t = strip_casts(e['e'])
+            old = self.ev(t)
+            new = old + (1 if e['op'] == '++' else -1)
+            self.assign(t, new)
+            return old if e.get('post') else new
+        if k == 'Bin' and e['op'] == '=':
+            v = self.ev(e['rhs'])
+            self.assign(strip_casts(e['lhs']), v)
+            return v
+        if k == 'Bin' and e['op'] in ('+=', '-=', '*='):
+            t = strip_casts(e['lhs'])
+            a, b = self.ev(t), self.ev(e['rhs'])
+            v = a + b if e['op'] == '+=' else (a - b if e['op'] == '-=' else a * b)
+            self.assign(t, v)
+            return v
+        if k == 'Cast' and e.get('ck') in ('IntegralToFloating', 'FloatingCast', 'PointerToBoolean', 'NullToPointer', 'IntegralCast', 'IntegralToBoolean'):
+            v = self.ev(e['e'])
+            if e['ck'] in ('PointerToBoolean', 'IntegralToBoolean'):
+                return int(bool(v))
+            if e['ck'] == 'IntegralCast' and isinstance(v, int):
+                return wrap(v, e['to'])
+            return v
+        if k == 'Cast':
+            return self.ev(e['e'])
+        return super().ev(e)
+
+    def assign(self, t, v):
+        if t.get('k') == 'Ref' and t.get('d') in ('local', 'param'):
+            self.env[t['id']] = v
+        elif t.get('k') == 'Member':
+            self.env['.' + t['m']] = v
+        else:
+            raise Unsupported('assignment target ' + pp(t))
+
+    def exec(self, s):
+        k = s['k']
+        if k == 'Compound':
+            for c in s['c']:
+                self.exec(c)
+        elif k == 'Decl':
+            for v in s['vars']:
+                if v.get('init') is not None:
+                    self.env[v['id']] = self.ev(v['init'])
+        elif k == 'If':
+            if s.get('init'):
+                self.exec(s['init'])
+            if self.ev(s['cond']):
+                self.exec(s['then'])
+            elif s.get('else'):
+                self.exec(s['else'])
+        elif k == 'Switch':
+            v = self.ev(s['cond'])
+            groups = switch_cases(s)
+            start = None
+            for i, g in enumerate(groups):
+                for l in g['labels']:
+                    if l is not None and self.ev(l) == v:
+                        start = i
+            if start is None:
+                for i, g in enumerate(groups):
+                    if None in g['labels']:
+                        start = i
+            if start is not None:
+                try:
+                    for g in groups[start:]:
+                        for st in g['stmts']:
+                            self.exec(st)
+                except _Break:
+                    pass
+        elif k == 'Break':
+            raise _Break()
+        elif k == 'Return':
+            raise _Return(self.ev(s['e']) if s.get('e') else None)
+        elif k == 'Null':
+            pass
+        elif k in ('While', 'For', 'Do', 'Try', 'Goto', 'Label', 'Continue'):
+            raise Unsupported('stmt ' + k)
+        else:
+            if k == 'Cast' and s.get('ck') == 'ToVoid':
+                return
+            self.ev(s)
+
+    def call(self, body):
+        try:
+            self.exec(body)
+        except _Return as r:
+            return r.v
+        return None
+
+
+def _const_bool_assignments(ast):
+    """[(local id, value or None)] for assignments to locals in a statement: value None = not a constant"""
+    out = []
+    if ast is None:
+        return out
+    if ast.get('k') == 'Decl':
+        for v in ast.get('vars', []):
+            init = strip_casts(v.get('init')) if v.get('init') is not None else None
+            out.append((v['id'], init['cv'] if init is not None and init.get('k') in ('Bool', 'Int') and 'cv' in init else None))
+        return out
+    for x in walk(ast):
+        if x['k'] == 'Bin' and x['op'].endswith('=') and x['op'] not in ('==', '!=', '<=', '>='):
+            t = strip_casts(x['lhs'])
+            if t is not None and t.get('k') == 'Ref' and t.get('d') in ('local', 'param'):
+                r = strip_casts(x['rhs'])
+                out.append((t['id'], r['cv'] if x['op'] == '=' and r is not None and r.get('k') in ('Bool', 'Int') and 'cv' in r else None))
+        elif x['k'] == 'Un' and x['op'] in ('++', '--'):
+            t = strip_casts(x['e'])
+            if t is not None and t.get('k') == 'Ref' and t.get('d') in ('local', 'param'):
+                out.append((t['id'], None))
+        elif x['k'] in ('Call', 'MCall', 'Ctor'):
+            # passed by (possibly non-const) reference: forget
+            for a in x.get('args', []):
+                sa = strip_casts(a)
+                if sa is not None and sa.get('k') == 'Ref' and sa.get('d') in ('local', 'param') and not str(sa.get('ty', '')).startswith('const') and a.get('k') != 'Cast':
+                    pass
+    return out
+
+
+def _cond_on_const(atom, state):
+    """if the atomic condition tests a local whose constant value is known, return the branch taken, else None"""
+    e = strip_casts(atom)
+    if e is None:
+        return None
+    neg = False
+    want = None
+    if e.get('k') == 'Bin' and e['op'] in ('==', '!='):
+        l, r = strip_casts(e['lhs']), strip_casts(e['rhs'])
+        for a, b in ((l, r), (r, l)):
+            if a is not None and a.get('k') == 'Ref' and a.get('d') in ('local', 'param') and b is not None and b.get('k') in ('Bool', 'Int') and 'cv' in b:
+                if a['id'] in state:
+                    v = (state[a['id']] == b['cv']) if isinstance(state[a['id']], int) else None
+                    if v is None:
+                        return None
+                    return v if e['op'] == '==' else (not v)
+        return None
+    if e.get('k') == 'Ref' and e.get('d') in ('local', 'param') and e['id'] in state:
+        return bool(state[e['id']])
+    return None
+
+
+def reach_with_constants(cfg, start_node, avoid):
+    """Like CFG.reachable_avoiding from one node, but path-sensitive in boolean/integer locals that hold a known
+    constant: the state is seeded with the constants assigned on every path... conservatively: with the assignments made
+    by straight-line predecessors that dominate start_node is NOT attempted; the state starts from the assignments made
+    at start_node's own successors chain.  Returns set of reachable node ids."""
+    seen = set()
+    st = [(s, ()) for s in start_node.succ]
+    out = set()
+    while st:
+        n, state_t = st.pop()
+        key = (n.id, state_t)
+        if key in seen:
+            continue
+        seen.add(key)
+        if avoid(n):
+            continue
+        out.add(n.id)
+        state = dict(state_t)
+        if n.kind == 'stmt' or n.kind == 'cond':
+            for vid, val in _const_bool_assignments(n.ast if n.kind == 'stmt' else None):
+                if val is None:
+                    state.pop(vid, None)
+                else:
+                    state[vid] = val
+        ns = tuple(sorted(state.items()))
+        if n.kind == 'cond':
+            br = _cond_on_const(n.ast, state)
+            if br is True and n.cond_true is not None:
+                st.append((n.cond_true, ns)); continue
+            if br is False and n.cond_false is not None:
+                st.append((n.cond_false, ns)); continue
+        for s in n.succ:
+            st.append((s, ns))
+    return out
